@@ -29,7 +29,7 @@ def exhaustive(tier):
 
 def model_runs(tier):
     from harness import algo
-    return algo.leads_to_final(tier)
+    return algo.leads_to_final(tier) + algo.acyclic_paths(tier)
 
 
 def hashseeds(tier):
